@@ -1074,6 +1074,35 @@ def p_filter_ill_typed_beside_group(rng, s, b):
 
 
 @M.mutator("C08")
+def p_nested_list_through_variable(rng, s, b):
+    """An application reads a path from a variable that holds a LIST of objects; the path is changed to one that ends
+    in a list-valued attribute / edge collection of the same item type: a list of lists, which has no type (typed flat
+    it would be exactly the type the application had before)."""
+    def pred(pl, ins, st, info):
+        src = ins[2]["src"]
+        if src[0] != "V" or not src[2]:
+            return False
+        e = st.get(src[1], ins[1])
+        return e is not None and e["type"][0] and e["type"][1] == "OBJECT" and e["type"][2] is not None
+    c = _pick_instr(rng, s, b, "app", pred)
+    if c is None:
+        return None
+    pl, ins, before, info, final = c
+    src = ins[2]["src"]
+    e = before.get(src[1], ins[1])
+    tid = e["type"][2]
+    cur = walk(s, tid, True, src[2])
+    if cur is None:
+        return None
+    alts = [pp for pp, t in all_paths(s, tid, False) if t is not None and t[0] and t[1] == cur[1] and t[2] == cur[2]
+            and walk(s, tid, True, pp) is None]
+    if not alts:
+        return None
+    ins[2]["src"] = ("V", src[1], list(rng.choice(alts)))
+    return "application reads a list-valued path from a variable that holds a list of objects (list of lists)"
+
+
+@M.mutator("C08")
 def p_output_type_mismatch(rng, s, b):
     pls = _pipes(rng, s, b)
     if not pls:
